@@ -14,6 +14,11 @@ impl Flag {
     pub fn is_woken(&self) -> bool {
         self.woken.load(Ordering::SeqCst)
     }
+    /// Re-arm a waker that is polled with again (an executor hands the same waker to every poll of
+    /// a task).
+    pub fn clear(&self) {
+        self.woken.store(false, Ordering::SeqCst);
+    }
     pub fn wake_count(&self) -> u32 {
         self.count.load(Ordering::SeqCst)
     }
